@@ -60,7 +60,7 @@ fn gen(seed: u64, tier: Tier) -> Plan {
         state: rng.pick(&["fresh", "after-reorg"]).to_string(),
         depth: rng.range(2, max_depth) as usize,
         edit: rng.pick(EDITS).to_string(),
-        path: rng.pick(&["pool", "block-tip", "block-fork"]).to_string(),
+        path: rng.pick(&["pool", "block-tip", "block-fork", "block-fork-late"]).to_string(),
         pos: rng.below(4) as usize,
         extra_txs: rng.below(4) as usize,
         prune_after: *rng.pick(&[0u64, 1, 2]),
@@ -221,7 +221,7 @@ impl Scenario for C01 {
     fn meta(&self) -> Meta {
         Meta {
             level: "exploration",
-            rule: "run = honest history (2..10/25 blocks; optionally with a reorganisation so that spent/unspent differ between forks) + one hostile item from a 15-entry catalogue (forged/zero/foreign signature, foreign-owned extra input, non-existent, already-spent, duplicated input in a tx / across txs of a block, user inputs under SPV / BlockStake / ATR / Issuance / Fee / Vip type, overspend) placed at a random transaction position, offered through one of three entry paths: pool (Mempool::add_transaction_if_validates), block as next tip, block on a side fork that then becomes the longer candidate. Oracles: hostile tx absent from the pool; hostile block never on the longest chain; independent scan of the node's longest chain against the reference ledger (every value-carrying input spendable at that point, owned by the signer). The honest twin must be accepted, otherwise the run is discarded as trivial. distinct_nontrivial = distinct (state class, depth bucket, edit, path, position) whose twin was accepted.",
+            rule: "run = honest history (2..10/25 blocks; optionally with a reorganisation so that spent/unspent differ between forks) + one hostile item from a 15-entry catalogue (forged/zero/foreign signature, foreign-owned extra input, non-existent, already-spent, duplicated input in a tx / across txs of a block, user inputs under SPV / BlockStake / ATR / Issuance / Fee / Vip type, overspend) placed at a random transaction position, offered through one of four entry paths: pool (Mempool::add_transaction_if_validates), block as next tip, block on a side fork that then becomes the longer candidate, block on top of an honest stored sibling of the tip (the hostile block is the second block of the candidate chain, so the first is wound and unwound again). Oracles: hostile tx absent from the pool; hostile block never on the longest chain, and with the tip unmoved the spendable set is exactly what it was before the block arrived; independent scan of the node's longest chain against the reference ledger (every value-carrying input spendable at that point, owned by the signer). The honest twin must be accepted, otherwise the run is discarded as trivial. distinct_nontrivial = distinct (state class, depth bucket, edit, path, position) whose twin was accepted.",
             real: &["Transaction::validate/validate_against_utxoset/generate", "Slip::validate", "Block::create/generate/validate", "Mempool::add_transaction_if_validates", "Blockchain::add_block"],
             stubs: &["SimIo", "SimConfig", "vendored ahash"],
             assumptions: &["genesis period >> depth in this family (expired inputs are exercised by C13's histories)", "staking off"],
@@ -339,9 +339,30 @@ impl Scenario for C01 {
                     r.violate(format!("C01|accepted|{}|pool", plan.edit), format!("hostile transaction ({}) entered the pool", plan.edit));
                 }
             }
-            "block-tip" | "block-fork" => {
+            "block-tip" | "block-fork" | "block-fork-late" => {
                 let parent = if plan.path == "block-tip" {
                     tip_idx
+                } else if plan.path == "block-fork-late" {
+                    // an honest sibling of the tip, delivered first (stored, not on the longest chain); the
+                    // hostile block on top of it is then the *second* block of the candidate chain: the
+                    // first one is wound before the hostile one fails, and has to be unwound again
+                    let pp = *w.by_hash.get(&w.recs[tip_idx].parent).unwrap();
+                    match crate::util::guarded(|| w.honest_child(pp, &mut rng, 1, (w.recs[pp].id + 1) % 2 == 0, 2650, "honest-sibling")) {
+                        Ok(Ok(sib)) => {
+                            let oc = n.add_block_bytes(&w.recs[sib].bytes.clone()).as_ref().map(outcome_of);
+                            trace.str(&format!("{:?}", oc));
+                            if oc != Some(AddOutcome::Added { longest: false }) {
+                                r.discarded = true;
+                                r.probe("sibling_not_stored");
+                                return r;
+                            }
+                            sib
+                        }
+                        _ => {
+                            r.discarded = true;
+                            return r;
+                        }
+                    }
                 } else {
                     // sibling of the tip
                     *w.by_hash.get(&w.recs[tip_idx].parent).unwrap()
@@ -349,7 +370,7 @@ impl Scenario for C01 {
                 let pledger = w.ledger_at(parent);
                 let pts = w.recs[parent].ts + 2700;
                 // hostile tx must be built against the parent's ledger for the fork path
-                let h = if plan.path == "block-fork" {
+                let h = if plan.path != "block-tip" {
                     let mut sp = vec![];
                     for i in w.path_to(parent) {
                         for tx in &w.recs[i].txs {
@@ -412,6 +433,7 @@ impl Scenario for C01 {
                 };
                 let hidx = w.register(hb, false, &format!("hostile:{}", plan.edit));
                 let before_tip = n.tip();
+                let before_keys = n.utxo_keys();
                 let oc = n.add_block_bytes(&w.recs[hidx].bytes.clone()).as_ref().map(outcome_of);
                 trace.str(&format!("{:?}", oc));
                 let mut last = hidx;
@@ -434,6 +456,16 @@ impl Scenario for C01 {
                     r.violate(
                         format!("C01|accepted|{}|{}", plan.edit, plan.path),
                         format!("a block carrying a hostile transaction ({}) is on the longest chain (tip {} -> {})", plan.edit, before_tip.0, n.tip().0),
+                    );
+                } else if n.tip() == before_tip && n.utxo_keys() != before_keys {
+                    // the rejected candidate left the tip where it was: nothing it carried may have become
+                    // spendable, nothing may have stopped being so
+                    let after = n.utxo_keys();
+                    let extra = after.iter().filter(|k| !before_keys.contains(k)).count();
+                    let missing = before_keys.iter().filter(|k| !after.contains(k)).count();
+                    r.violate(
+                        format!("C01|spendable-set-changed-by-rejected-block|{}", plan.path),
+                        format!("a rejected block carrying a hostile transaction ({}) left the tip at {} but {} outputs became spendable and {} stopped being so", plan.edit, before_tip.0, extra, missing),
                     );
                 } else {
                     // control: the twin in the same position is accepted
